@@ -72,7 +72,7 @@ Proof.
   split; [cbn [step_ok]; intros Hx; vm_compute in Hx; discriminate|].
   split; [|exact I].
   cbn [step_ok]. intros _ st1 mf sf Hg. vm_compute in Hg. injection Hg as <- <- <-.
-  vm_compute. repeat split; discriminate.
+  split; [left; vm_compute; discriminate|]. vm_compute. split; discriminate.
 Qed.
 
 (** out of memory: max_size reached, nothing fits *)
